@@ -306,7 +306,7 @@ def fuzz_target():
 
 def plan(tier, seed, scale):
     K = 16
-    total = int((10000 if tier == "quick" else 200000) * scale)
+    total = int((10000 if tier == "quick" else 100000) * scale)
     tasks = [{"name": "fixed", "kind": "fixed"}]
     for i in range(1 if tier == "quick" else 4):
         tasks.append({"name": "covfuzz-%d" % i, "kind": "covfuzz", "shard": i,
